@@ -79,7 +79,7 @@ impl FuObs {
         self.lps.get(lp).cloned().unwrap_or_else(|| format!("factory/{}/o.a.LP", self.cfg.as_ref().map(|c| c.pool_manager_addr.to_string()).unwrap_or_default()))
     }
     pub fn lp_index(&self, denom: &str) -> Option<usize> {
-        self.lps.iter().position(|l| l == denom)
+        self.lps.iter().position(|l| l == denom).or_else(|| (denom == self.lp_denom(2)).then_some(2))
     }
 }
 
@@ -755,6 +755,11 @@ pub fn enabled(c: &FuChecker, w: &World, pre: &FuObs, g: &FuGhost) -> Vec<FuOp> 
     if !matches!(a, FAlpha::Farms) {
         for &u in &users {
             let mine: Vec<&fm::Position> = pre.positions.iter().filter(|p| p.receiver == w.users[u]).collect();
+            if matches!(a, FAlpha::Full | FAlpha::Positions) && pre.cfg.as_ref().map_or(false, |c| c.pool_manager_addr != w.pool_manager) {
+                // after a re-pointing of pool_manager_addr: new positions in the configured pool manager's LP token
+                ops.push(pos(u, 2, 1000, DAY));
+                ops.push(pos(u, 2, 7, 100 * DAY));
+            }
             if !matches!(a, FAlpha::RewardCore) {
                 for lp in 0..n_lps {
                     match a {
